@@ -9,6 +9,12 @@
  V3 (K2) end_block: the block's validator updates are read, then cleared, and what is returned
     to CometBFT is what was read; every executed ValidatorUpdate is appended to that set.
  V4 (K8) vote-extension verification reads the same validator store.
+ V5 (information flow) a removal handed to CometBFT must be one it can apply, i.e. the key must
+    have been in the set at the start of the block.  The stored entry that guards a removal is
+    *current* block state (it also exists for a key added earlier in the same block), so the
+    decision needs a second source: the pending per-block updates must be consulted for the key
+    before a removal is recorded, or end_block must filter the batch against the committed set.
+    Neither happens today (finding F10: add-then-remove of a new key in one block).
 Not decided: the fold-over-history mirror and CometBFT-applicability of each batch (e.g.
 add-then-remove of a new key inside one block) - history dependent.
 """
@@ -44,6 +50,7 @@ def run(prog, rep):
     v2(prog, rep)
     v3(prog, rep)
     v4(prog, rep)
+    v5(prog, rep)
 
 
 def switch_on(body, root_rx):
@@ -232,3 +239,40 @@ def v4(prog, rep):
     rep.check(len(g) == 1 and b.root(g[0].args[1]) == "address", "V4", "ve-key<-validator-store",
               "vote-extension verification keys are not read from the application's validator "
               "store", b.describe())
+
+
+def v5(prog, rep):
+    body = prog.main_body(VU + "execute")
+    QUERY = {"get", "contains", "contains_key", "remove", "entry", "get_mut", "iter", "values",
+             "keys", "is_empty", "len", "retain", "take", "get_key_value"}
+    consults = []
+    for o in (VU + "execute", VU + "do_run_mutable_checks", VU + "run_mutable_checks"):
+        if o not in prog.by_owner:
+            continue
+        for b in prog.bodies_of(o):
+            for c in b.calls:
+                if c.expn or not c.args:
+                    continue
+                r0 = b.root(c.args[0])
+                if "get_block_validator_updates(" in r0 and short_name(c.callee) in QUERY:
+                    consults.append(f"{short_name(o)}:{short_name(c.callee)}")
+    # or: end_block filters what it read before handing it to CometBFT
+    eb = prog.main_body(S + "app::App::end_block")
+    filters = []
+    for c in eb.calls:
+        if c.expn or not c.args:
+            continue
+        r0 = eb.root(c.args[0])
+        if "get_block_validator_updates(self.state)" in r0 and \
+                short_name(c.callee) in ("retain", "filter", "remove", "filter_map", "extract_if"):
+            filters.append(short_name(c.callee))
+    ins = [c for c in body.calls if short_name(c.callee) == "insert" and c.args
+           and "get_block_validator_updates(" in body.root(c.args[0])]
+    rep.floor("V5", len(ins), 1, "insertion into the block's validator updates in execute")
+    rep.check(bool(consults) or bool(filters), "V5", "removal-applicability:pending-updates-consulted",
+              "a removal (power 0) is recorded for CometBFT on the evidence of the *current* stored "
+              "entry alone; neither ValidatorUpdate::execute/checks consult the block's pending "
+              "updates for the key nor does end_block filter the batch against the committed set: "
+              "a validator added and removed inside one block yields a removal of a key CometBFT "
+              "never had, which CometBFT cannot apply", body.describe(),
+              detail=f"consults={consults} filters={filters}")
